@@ -62,6 +62,15 @@ def run(ctx):
                 r = B2.Rec2(b); r.call(H.content(rnd, n, 0), p); t2.append(r.trace(dict(kind='params', i=i, n=n))); ctx.mark(('b2', b, 'par', i, n))
         for m in core.zero_edge_inputs(lambda x: (blake.Blake2(512 if b else 256))(x), lambda i: b'z2-%d-%d' % (ctx.seed, i), want=2, tries=900):
             r = B2.Rec2(b); r.call(m, B2.par(b)); t2.append(r.trace(dict(kind='zero-edge digest')))
+        # ONE object, consecutive calls whose parameter blocks differ in exactly one field (anything derived from the parameters must follow every field)
+        base = dict(outlen=mx - 1, keylen=2, fanout=2, depth=3, leafl=64, noffset=1, ndepth=1, inner=mx // 2, salt=full(sl), pers=full(sl))
+        alt = dict(outlen=mx - 2, keylen=3, fanout=3, depth=4, leafl=65, noffset=2, ndepth=0, inner=mx // 2 - 1, salt=full(sl), pers=full(sl))
+        r = B2.Rec2(b, single); m0 = H.content(rnd, Bb + 9, 0)
+        r.call(m0, B2.par(b, **base))
+        for f in base:
+            p2 = dict(base); p2[f] = alt[f]
+            r.call(m0, B2.par(b, **p2), explicit_outlen=True); r.call(m0, B2.par(b, **base), explicit_outlen=True)
+        t2.append(r.trace(dict(kind='one field at a time'))); ctx.mark(('b2', b, 'one field at a time'))
         # byte counters that need the second word (t0 -> t1) or more than 53 bits: preset, then pieces
         cw = 64 if b else 32
         for T0 in ((1 << cw) - Bb, (1 << cw) - 2 * Bb, 1 << cw, (1 << 53) + 3 * Bb if b else (1 << 24) + 3 * Bb, (1 << (2 * cw)) - 2 * Bb):
